@@ -68,6 +68,7 @@ func c16(c *core.Check) {
 	c16ContainerClasses(c)
 	c16ClearedIsTested(c)
 	c16StableSorts(c)
+	c16ViewportOverflow(c)
 
 	dsc := p.Method("html/document", "drawContext", "drawStackingContext")
 	if dsc == nil {
